@@ -2025,6 +2025,12 @@ pub fn assign_all(
                         splat = Some((i, Err((inner, anno))));
                     }
                 },
+                EvaluatedLvalue::WithDefault(_, def) => {
+                    let prev_non_splat_args = if splat.is_some() { i - 1 } else { i };
+                    if rhs_len <= prev_non_splat_args {
+                        defaults_in_play.push(def);
+                    }
+                }
                 _ => {
                     if !defaults_in_play.is_empty() {
                         return Err(NErr::syntax_error(format!(
